@@ -95,6 +95,12 @@ func c18One(c *run.C) {
 				sizes = append(sizes, r.Range(1, 40))
 			}
 		}
+		if len(sizes) > 1 && r.P(1, 6) {
+			// one read of the cycle returns (0, nil): io.Reader allows it and
+			// asks callers to treat it as "nothing happened"
+			sizes[r.Intn(len(sizes))] = 0
+			c.Observe("reader_streams_with_empty_reads", 1)
+		}
 		buf = gen.Pick(r, []int{0, 1, 2, 3, 7, 16, 64, 4096})
 		eofData = r.Bool()
 	}
@@ -237,7 +243,7 @@ func init() {
 			"Oracle over the recorded history of Next calls: calls 1..k return nil, after call i the visitor has seen exactly i complete values and the events delivered by call i are exactly one value equal to document i (reference value), " +
 			"calls k+1 and k+2 return io.EOF without events; a cut stream makes some call return an error other than io.EOF. distinct_nontrivial = distinct (codec, bytes, reader schedule, buffer size).",
 		Assumptions: []string{
-			"zero-length reads are not issued (the property quantifies over read sizes from 1 byte)",
+			"a reader may return (0, nil) once per cycle of read sizes (io.Reader allows it; a decoder has to read again); never several times in a row",
 			"JSON streams ending in a lenient number prefix (\"1.\", \"1e\") are not used as truncation witnesses",
 		},
 		Suites: []*run.Suite{
